@@ -39,7 +39,7 @@ common.install(
         "oracle: {(answer set on OUT, cost per priority with zero levels dropped)} equal between source and result for every instance (clingo --opt-mode=enum reports the cost of every model). "
         "non-trivial = a pass changed the program AND some answer set of P+I has a non-zero cost; distinct = distinct (program, configuration) hash."
     ),
-    traits_fn=config.trait_subset,
+    traits_fn=config.trait_subset_light,
     corpus_sel=lambda: common.corpus_entries(objective=True),
     corpus_traits=c01.corpus_traits,
     template=objective_template,
